@@ -67,11 +67,11 @@ def las_files(rng, n):
     from . import c09
     out = []
     for i in range(n):
-        vers = rng.choice(['1.2', '2.0'])
+        vers, spelt = rng.choice([('1.2', '1.2'), ('2.0', '2.0'), ('1.2', '1.20'), ('2.0', '2.00'), ('2.0', '2.0'), ('1.2', '1.2')])    # the standards print 1.20 / 2.0
         nhdr = {'V': 2, 'W': rng.randint(1, 5), 'C': rng.choice([1, 3, 9]), 'P': rng.randint(0, 3)}
         nf = rng.choice([1, 4, 50])
         wrap = rng.random() < 0.4
-        content = c09.make_content(rng, nhdr, nf, wrap, vers)
+        content = c09.make_content(rng, nhdr, nf, wrap, spelt)
         hist = []
         for _ in range(rng.choice([0, 0, 1, 3])):
             hist.append((rng.choice(['comment', 'blank', 'spaces']),))
@@ -104,7 +104,7 @@ def bit_files(rng, n):
         for p in range(rng.choice([1, 2])):
             nch = rng.choice([1, 3, 20])
             blocks = [rng.choice([1, 16])] * rng.choice([1, 3])
-            passes.append(dict(names=['C%02d ' % c for c in range(nch)], start=1000.0, stop=900.0, spacing=0.25,
+            passes.append(dict(names=['C%02d ' % c for c in range(nch)], start=1000.0, stop=900.0, spacing=0.25, unused=rng.choice([b'    ', b'    ', b'\x00\x00\x00\x00', b'\xff\xff\xff\xff', b'\x80\x01\xfe\x7f', b'OLD ']),
                                blocks=[[[c13.id_word(p + 1, bi + 1, c + 1, j + 1) for j in range(f)] for c in range(nch)] for bi, f in enumerate(blocks)]))
         out.append(('BIT', GB.render(passes), dict(fmt='BIT', passes=len(passes))))
     return out
